@@ -14,6 +14,7 @@ PASSED=$(grep -E '^test result' $LOG | awk '{s+=$4} END {print s}'); FAILED=$(gr
 # place demo
 for f in $S/demo/*.rs; do cp $f sudachi/tests/; done
 [ -d $S/demo/resources ] && cp -r $S/demo/resources/* sudachi/tests/resources/
+for f in $S/demo/*.csv $S/demo/*.def $S/demo/*.json; do [ -f "$f" ] && cp $f sudachi/tests/resources/; done
 DEMO_WITH=0
 for f in $S/demo/*.rs; do st=$(basename $f .rs); cargo test -p sudachi --offline -j6 --test $st >> $LOG 2>&1 || DEMO_WITH=1; done
 # 3. demo without the change
